@@ -589,8 +589,10 @@ class Inliner(object):
     if isinstance(f, ast.Attribute) and not (isinstance(f.value, ast.Name) and (f.value.id in ('self', 'cls') or f.value.id[:1].isupper())):
       # self.<attr>.method(...): a collaborator object of this class; <local>.method(...): an object held in a plain local
       # whose class the type inference knows (a loop variable over a list of rule objects)
+      ctor_recv = isinstance(f.value, ast.Call) and isinstance(f.value.func, ast.Name) and f.value.func.id.lstrip('_')[:1].isupper() and \
+        not f.value.keywords and all(isinstance(a, (ast.Name, ast.Constant)) for a in f.value.args)
       if not (isinstance(f.value, ast.Attribute) and isinstance(f.value.value, ast.Name) and f.value.value.id == 'self') and \
-         not isinstance(f.value, ast.Name):
+         not isinstance(f.value, ast.Name) and not ctor_recv:          # K(...).method(): an object built for this one call
         return None
     if not isinstance(f, (ast.Name, ast.Attribute)):
       return None
@@ -600,6 +602,11 @@ class Inliner(object):
       cs, how = self.T.callees(call, fn.module, getattr(fn, 'original', fn), byname_fallback=False)
     except Exception:
       return None
+    if isinstance(f, ast.Attribute) and isinstance(f.value, ast.Name) and f.value.id in getattr(self, '_recv_class', {}):
+      k_ = self._recv_class[f.value.id]
+      mth = self.repo.find_method(k_, f.attr)
+      if mth is not None and not self.repo.subclasses(k_):
+        cs, how = [(mth, 'method')], 'resolved'
     if (how != 'resolved' or len(cs) != 1) and isinstance(f, ast.Attribute) and isinstance(f.value, ast.Name) and \
        f.value.id not in ('self', 'cls') and not f.value.id[:1].isupper():
       # <local>.method(...) whose class is not inferred: a method name defined exactly once in the whole program
@@ -908,6 +915,11 @@ class Inliner(object):
     pre = []
     for p, a in binds:
       tgt = rename.get(p, p)
+      if isinstance(a, ast.Call) and isinstance(a.func, ast.Name) and callee.cls is not None and params and p == params[0]:
+        # self of the spliced method is an object built for this call: remember its class for the hook calls in the body
+        for k_ in [callee.cls] + list(self.repo.subclasses(callee.cls)):
+          if k_.name == a.func.id:
+            self.__dict__.setdefault('_recv_class', {})[tgt] = k_
       pre.append(ast.copy_location(ast.Assign(targets=[ast.Name(id=tgt, ctx=ast.Store())], value=_clone(a)), call))
     result = pre + new_body
     for st in result:
